@@ -276,6 +276,69 @@ fn ledger_big_chunk_cases(o: &mut Out, rng: &mut Rng, thorough: bool) {
     }
 }
 
+/// the inflater's output buffer cursors after every decompress call (hook) vs the model (Model/ZlibBuf.v)
+fn zbuf_cases(o: &mut Out, rng: &mut Rng, thorough: bool) {
+    use png::{Decoded, StreamingDecoder};
+    let mut files: Vec<(String, Vec<u8>)> = vec![];
+    for _ in 0..(if thorough { 40 } else { 8 }) {
+        let b = valid_file(rng, &GenOpts { maxw: 700, maxh: 500, anc: false, animated: Some(false) });
+        files.push((b.name, b.bytes));
+    }
+    let im = crate::c01::far_match_image(rng, 200, 32768, 0);
+    files.push((im.name.clone(), im.file.clone()));
+    // a tiny image followed by far more data than it needs, and a big image of zeros
+    let mut ch = vec![ihdr(3, 3, 8, 0, 0)];
+    ch.extend(idat_chunks(&zeros_z(3_000_000), 1 << 16));
+    ch.push(Chunk::new(b"IEND", vec![]));
+    files.push(("tiny-with-3MB-stream".into(), assemble(&ch)));
+    let mut ch = vec![ihdr(2000, 700, 8, 2, 1)];
+    ch.extend(idat_chunks(&zeros_z(crate::refimpl::adam7_rows_ref(2000, 700).iter().map(|(_, _, lw)| 1 + *lw as usize * 3).sum()), 50_000));
+    ch.push(Chunk::new(b"IEND", vec![]));
+    files.push(("interlaced-2000x700".into(), assemble(&ch)));
+    for (name, file) in files {
+        let piece = *rng.pick(&[1usize << 20, 40_000, 4096, 700, 65_536, 33]);
+        o.mark(&format!("zbuf {} piece={}", name, piece));
+        let mut dec = StreamingDecoder::new();
+        let mut image: Vec<u8> = vec![];
+        let mut ks: Vec<String> = vec![];
+        let mut states: Vec<String> = vec![];
+        let mut max0: Option<usize> = None;
+        let mut pos = 0usize;
+        'outer: while pos < file.len() {
+            let end = (pos + piece).min(file.len());
+            let mut buf = &file[pos..end];
+            while !buf.is_empty() {
+                let before = dec.verif_zlib_buffer_state();
+                let len0 = image.len();
+                match dec.update(buf, &mut image) {
+                    Err(_) => break 'outer,
+                    Ok((n, ev)) => {
+                        buf = &buf[n..];
+                        match ev {
+                            Decoded::ImageData => {
+                                if max0.is_none() { max0 = Some(before.3); }
+                                if !before.4 {
+                                    let after = dec.verif_zlib_buffer_state();
+                                    ks.push((image.len() - len0).to_string());
+                                    states.push(format!("{}:{}:{}", after.0, after.1, after.2));
+                                }
+                            }
+                            Decoded::ImageDataFlushed | Decoded::ImageEnd => break 'outer,
+                            _ => {}
+                        }
+                    }
+                }
+                if ks.len() >= 4000 { break 'outer; }
+            }
+            pos = end;
+        }
+        if ks.is_empty() { continue; }
+        let mx = match max0 { Some(m) if m != usize::MAX => m.to_string(), _ => "-".into() };
+        o.case(&format!("zbuf {} {}", mx, ks.join(",")), &states.join(";"), &format!("zbuf-{}-{}", name.len() % 7, piece), ks.len() > 3);
+        o.count("zbuf.files");
+    }
+}
+
 fn rng_len(rng: &mut Rng) -> usize {
     *rng.pick(&[0usize, 1, 5, 30, 120])
 }
@@ -286,6 +349,7 @@ pub fn run(a: &Args) {
     let thorough = a.tier == "thorough";
     ledger_cases(&mut o, &mut rng, thorough);
     ledger_big_chunk_cases(&mut o, &mut rng, thorough);
+    zbuf_cases(&mut o, &mut rng, thorough);
     let scs = scenarios(&mut rng, thorough);
     let limits: Vec<usize> = if thorough { vec![64 << 10, 256 << 10, 1 << 20, 4 << 20, 16 << 20, 64 << 20] } else { vec![64 << 10, 256 << 10, 1 << 20, 16 << 20, 64 << 20] };
     let trs = [Transformations::IDENTITY, Transformations::EXPAND, Transformations::STRIP_16, Transformations::EXPAND | Transformations::STRIP_16, Transformations::ALPHA];
